@@ -308,11 +308,13 @@ impl<'i> VariableValidator<'i> {
     // canon doesn't check stream to be defined, because empty streams are considered to be empty
     // and it is useful for code generation
     pub(super) fn met_canon(&mut self, canon: &Canon<'i>, span: Span) {
+        self.met_peer_id_resolvable_value(&canon.peer_id, span);
         self.met_variable_name_definition(canon.canon_stream.name, span);
         self.met_simple_instr(span);
     }
 
     pub(super) fn met_canon_map(&mut self, canon_map: &CanonMap<'i>, span: Span) {
+        self.met_peer_id_resolvable_value(&canon_map.peer_id, span);
         self.met_variable_name_definition(canon_map.canon_stream_map.name, span);
         self.met_simple_instr(span);
     }
@@ -322,6 +324,7 @@ impl<'i> VariableValidator<'i> {
         canon_stream_map_scalar: &CanonStreamMapScalar<'i>,
         span: Span,
     ) {
+        self.met_peer_id_resolvable_value(&canon_stream_map_scalar.peer_id, span);
         self.met_variable_name_definition(canon_stream_map_scalar.scalar.name, span);
 
         self.met_simple_instr(span);
